@@ -281,6 +281,15 @@ func randBlob(r *common.Rand, sp *spec, mt string, backed bool) ocispec.Descript
 	if r.Chance(1, 3) {
 		d.Annotations = randAnn(r, "", false)
 	}
+	if backed && sp.Target == "file" && r.Chance(1, 2) && !isManifestType(mt) {
+		// a named file of the file store (unique name per digest: the store refuses a second name
+		// for other content, and the same content under two names is restored by the store itself)
+		if d.Annotations == nil {
+			d.Annotations = map[string]string{}
+		}
+		d.Annotations[ocispec.AnnotationTitle] = "blob-" + string(d.Digest)[7:19] + pick(r, ".bin", ".json", "")
+		run.Count("file_named_blob")
+	}
 	if r.Chance(1, 8) {
 		d.URLs = []string{"https://example.com/" + longName(r, 4)}
 	}
